@@ -4,8 +4,9 @@ from vlib import core, corr
 
 AREA = "C12"
 SMALL_BUFFER_EDGE = []          # filled by run() from the generated table
-MODULES = ["TinsModel.Props.C12", "TinsModel.Props.Limits.C12"]   # + the constants / limits tied to the source (translator/gen_limits.py)
-AUDIT = ["Audit/C12.lean", "Audit/LimitsC12.lean"]
+# + the constants / limits tied to the source (translator/gen_limits.py) + the member table (translator/gen_members.py)
+MODULES = ["TinsModel.Props.C12", "TinsModel.Props.Limits.C12", "TinsModel.Props.Members.C12"]
+AUDIT = ["Audit/C12.lean", "Audit/LimitsC12.lean", "Audit/MembersC12.lean"]
 LEVEL = "proof"
 HARNESS = "c12_ownership"
 HARNESS_EXTRA = ["-fno-access-control"]      # PtrPacket's constructor and two members without public accessors
@@ -40,6 +41,21 @@ MANIFEST = dict(
               "Hoare reasoning over a heap model of PDUOption, refinement to a value model) + model/impl "
               "correspondence on real objects with allocator census",
     design="DESIGN.md §6 C12")
+MANIFEST["text"] += (" The assumption under both models — member-wise copy / move of a class is a deep value copy and the only "
+                     "pointers are PDU::inner_pdu_ / parent_pdu_, Packet::pdu_ and the option's heap buffer — is tied to the source: "
+                     "translator/gen_members.py regenerates lean/TinsModel/Gen/Members.lean (every non-static data member of every "
+                     "class derived from PDU, of Packet, PtrPacket / RefPacket, every PDUOption instantiation, PDUCacher, "
+                     "IPv4Reassembler / IPv4Stream, TCPStream and the tcp_ip classes, classified value / nested / container / "
+                     "ownedPtr / nonOwningPtr / smartPtr / reference / ptrContainer / other; the status of the five special member "
+                     "functions and the destructor with the members each user-provided body mentions; the clone() override) and "
+                     "lean/TinsModel/Props/Members/C12.lean decides over that table: only_known_pointer_members (allow-list naming the "
+                     "model function that mirrors each pointer), every_concrete_class_overrides_clone, no_class_slices (final overrider "
+                     "resolved through the hierarchy), rule_of_three_consistent, members_scan_complete, allow_list_not_stale. "
+                     "harness op `copyall` runs copy-construct, copy-assign, move-construct, move-assign and clone on a populated "
+                     "object (parsed from the wire generators' byte strings, or populated through the API) of every concrete class of "
+                     "the table in three mutation / destruction orders and compares serialisation, typeid, independence and the "
+                     "live-PDU census; when a table theorem fails the check searches with these operations on the classes named.")
+MANIFEST["technique"] += " + translator-generated member / special-member / clone table decided in Lean and exercised per class"
 MANIFEST["note"] += (" Constants and limits of the C++ source that the model restates (translator/gen_limits.py -> Gen/Limits.lean: "
                      "compiled probe + preprocessed function bodies at named anchors) are tied to the model's numerals by the "
                      "theorems of lean/TinsModel/Props/Limits/C12.lean (audit: Audit/LimitsC12.lean); tools/LIMITS-INVENTORY.md lists "
@@ -318,6 +334,69 @@ def known_cases(table):
     ]
 
 
+# ----------------------------------------------------------------------------- copyall: every concrete class of the member table
+
+COPY_CASE_START = ("copyall", "copyclasses")
+
+
+def wire_inputs(rng, per_family):
+    """class name -> byte strings (hex) of the wire generators' parse streams (mostly valid, some mutated)"""
+    import importlib
+    pool = {}
+    for fam in ("l2", "ip", "ip6", "transport", "icmp", "app", "wifi", "extra"):
+        try:
+            mod = importlib.import_module("checks.wire_gen_" + fam)
+            ops = mod.gen_parse(random.Random(rng.getrandbits(32)), per_family)
+        except Exception:
+            continue
+        for op in ops:
+            w = op.split(" ")
+            if len(w) == 3 and w[0] == "parse" and len(w[2]) % 2 == 0 and 0 < len(w[2]) <= 4096:
+                pool.setdefault(w[1], []).append(w[2])
+    return pool
+
+
+def copyall_ops(rng, names, pool, per_class, only=None):
+    """`copyall` lines: per class the API-populated object in every mode, then `per_class` parsed inputs (random mode);
+    `only`: restrict to these classes (the search after a member theorem failed)"""
+    ops = []
+    for n in names:
+        if only is not None and n not in only:
+            continue
+        ops += [f"copyall {n} - {m}" for m in (0, 1, 2)]
+        src = pool.get("IP" if n == "PDUCacher<IP>" else n, [])
+        if src:
+            picks = src if len(src) <= per_class else rng.sample(src, per_class)
+            # longest inputs first: options / extension headers / records are what the containers hold
+            for h in sorted(picks, key=len, reverse=True):
+                modes = (0, 1, 2) if only is not None else (rng.randrange(3),)
+                ops += [f"copyall {n} {h} {m}" for m in modes]
+    return ops
+
+
+def classify_copy(op, impl):
+    w = op.split(" ")
+    if w[0] != "copyall" or len(w) < 4:
+        return w[0]
+    st = "ok" if impl.startswith("ok ") and "=0 " not in impl and impl.endswith("live=0") else \
+        ("rejected" if impl == "SKIP" else impl.split(" ", 1)[0][:10] + "!")
+    return f"copyall:{'api' if w[2] == '-' else 'parsed'}:{st}"
+
+
+def member_failures():
+    """the rows Props/Members/C12.lean names when one of its theorems fails: [(theorem, class, member / detail)]"""
+    ok, text = core.lake_build(["TinsModel.Props.Members.C12"])
+    if ok:
+        return []
+    out = []
+    import re
+    for m in re.finditer(r"MEMBERS-FAIL \| (.*?) ;;END", text, re.S):
+        parts = [x.strip() for x in m.group(1).split(" | ")]
+        if len(parts) >= 2 and tuple(parts) not in out:
+            out.append(tuple(parts))
+    return out or [("TinsModel.Props.Members.C12 does not build", "?", text[-800:])]
+
+
 # ----------------------------------------------------------------------------- PDUOption storage level (harness c12_option)
 
 OPT_HARNESS = "c12_option"
@@ -517,6 +596,16 @@ def run(chk):
     gen_limits.main([])          # Gen/Limits.lean: constants and limits read from the current source
     chk.trusted.append("translator/gen_limits.py (constants / limits of the source -> Gen/Limits.lean: compiled probe + "
                        "preprocessed function bodies at named anchors; tied to the model numerals by Props/Limits/C12.lean)")
+    from translator import gen_members
+    try:
+        gm = gen_members.main([])      # Gen/Members.lean + harness/c12_members_gen.h: members, special member functions, clone()
+    except Exception as e:             # clang cannot parse the tree: the table theorems cannot be stated
+        gm = None
+        chk.violation("member table cannot be regenerated (translator/gen_members.py): " + str(e)[-1200:],
+                      ["translator-failure", str(e)[-3000:]], nofail=True)
+    chk.trusted.append("translator/gen_members.py (clang-14 AST of include/tins + the src files defining special members out of "
+                       "line -> Gen/Members.lean; verification hooks off); its class list and the copyability of every class "
+                       "are compared with the compiler's type traits on every run (`copyclasses`)")
     sb = gen_limits.values().get("optionSmallBuffer")
     # only lengths the literal list below does not contain: on the unchanged tree the random stream stays what it was
     SMALL_BUFFER_EDGE[:] = [x for x in ([sb - 1, sb, sb + 1] if sb is not None and 1 <= sb < 4096 else [])
@@ -543,6 +632,35 @@ def run(chk):
         focus = [table[(i * 3 + j * 11) % len(table)] for j in range(k)]
         ops += gen_case(rng, table, rng.choice([6, 10, 16, 30]), classes=focus if i % 5 else None)
     stats = corr.correspond(chk, AREA, exe, ops, case_start=CASE_START, classify=classify, sig_of=sig_of)
+    # every concrete class of the member table: all five copy / move operations + clone on populated objects
+    mfail = member_failures() if problems else []
+    cout, _ = core.run_harness_lines(exe, (), ["copyclasses"], COPY_CASE_START)
+    cnames = [x.split(":")[0] for x in cout[0].split(" ")] if cout and ":" in cout[0] else []
+    pool = wire_inputs(rng, 150 if quick else 1500)
+    cops = ["copyclasses"] + copyall_ops(rng, cnames, pool, 6 if quick else 60)
+    suspects = sorted({f[1] for f in mfail if len(f) > 1})
+    if suspects:
+        # a table theorem failed: search on the classes it names (and the classes derived from / wrapping them): every
+        # available input, every mode = every destruction order
+        rows = {r["name"]: r for r in (gm or {}).get("rows", [])}
+        def related(n):
+            r = rows.get(n)
+            return n in suspects or (r is not None and any(related(b) for b in r["bases"])) or \
+                (r is not None and any(h in suspects for m in r["members"] for h in m["holds"]))
+        only = [n for n in cnames if related(n)]
+        cops += copyall_ops(rng, cnames, wire_inputs(rng, 600), 400, only=only or cnames)
+    cstats = corr.correspond(chk, AREA, exe, cops, case_start=COPY_CASE_START, classify=classify_copy, sig_of=sig_of)
+    stats += cstats
+    dist = chk.extra.get("input_distribution", {})
+    chk.extra["copyall_classes"] = len(cnames)
+    if not (cstats.get("spec", 0) + cstats.get("fault", 0) + cstats.get("diff", 0)):
+        # every class of the table was really exercised on at least one populated object
+        out, _ = core.run_harness_lines(exe, (), [o for o in cops if o.startswith("copyall")], COPY_CASE_START)
+        done = {l.split(" ")[1] for l in out if l.startswith("ok ")}
+        missing = [n for n in cnames if n not in done]
+        if missing or not cnames:
+            chk.violation("copyall: no populated object could be built for " + (", ".join(missing) or "any class"),
+                          ["copyall-coverage"] + missing, nofail=True)
     # PDUOption at storage level: real options, heap-block census, value oracle
     oexe, oerr = core.build_harness(OPT_HARNESS)
     if oexe is None:
@@ -564,9 +682,17 @@ def run(chk):
             for i in range(1500):
                 ops += gen_case(rng, table, 150)
             stats += corr.correspond(chk, AREA, exe, ops, case_start=CASE_START, classify=classify, sig_of=sig_of)
+    found = stats.get("spec", 0) + stats.get("fault", 0)
+    if mfail and not found:
+        # verdict contract: the search (all five operations, every mode / destruction order, every input of the classes
+        # named) found no failing input — name the theorem and the member
+        what = "; ".join(" | ".join(f[:4]) for f in mfail[:6])
+        chk.violation("member table theorem no longer checks (lean/TinsModel/Props/Members/C12.lean): " + what[:1500],
+                      ["theorem-failure"] + [" | ".join(f) for f in mfail] +
+                      [f"searched: {sum(v for k, v in dist.items() if k.startswith('copyall'))} copyall lines "
+                       f"(classes {', '.join(suspects)[:300]}), forest and option streams"], nofail=True)
     for p in problems:
-        found = stats.get("spec", 0) + stats.get("fault", 0)
-        if not found:
+        if not found and not mfail:
             chk.violation("proof obligation no longer checks: " + p[:1500], ["theorem-or-audit-failure", p[:4000]], nofail=True)
     chk.cov["rule"] = ("cases = programs over {new,set,clone,copy-ctor,move-ctor,operator/,/=,copy-assign,move-assign,"
                        "inner_pdu(ptr|ref|null),release_inner_pdu,delete,Packet wrap/copy/move/assign/release//=,PtrPacket "
@@ -583,10 +709,28 @@ def run(chk):
                                         "proved, the composite is not an operation of the model; the harness reserves capacity",
                                         "option_type other than one byte, and the option containers inside the PDU classes "
                                         "(same class template): tied at value level only (forest harness, container-kind classes)",
-                                        "member-wise copy/move of each class abstracted to one value per layer",
-                                        "serialisation equality of copies and frame: checked on the implementation only",
+                                        "member-wise copy/move of each class abstracted to one value per layer — now tied to the "
+                                        "source: Gen/Members.lean lists every data member of every class of the scope, "
+                                        "Props/Members/C12.lean proves that all are deep values except the allow-listed pointers "
+                                        "(each mirrored by a named model function); what `deep value` means for std containers "
+                                        "and POD structs is the C++ standard's member-wise copy, not modelled further",
+                                        "serialisation equality of copies and frame: checked on the implementation only "
+                                        "(forest stream + `copyall` on populated objects of every concrete class)",
+                                        "the `mentions` relation of user-provided copy / move operations is syntactic (the member "
+                                        "is named in the body, an initialiser or a member function called): it does not prove the "
+                                        "member is copied correctly — the harness compares the result",
                                         "TCPStream / IPv4Reassembler use of clone/release/inner_pdu: only the primitives "
                                         "they call are modelled (their own state machines belong to C06/C08)"]
+    chk.extra["theorem_summary_members"] = {
+        "members_scan_complete": "the translator classified every member type and found every user-declared special member's body",
+        "only_known_pointer_members": "every data member of every class of the scope is a deep value except the allow-listed "
+                                      "pointers / references / callbacks, each with its kind and the model function mirroring it",
+        "allow_list_not_stale": "every allow-list entry names an existing member",
+        "every_concrete_class_overrides_clone": "every concrete PDU class declares clone() { return new X(*this); } with X itself",
+        "no_class_slices": "the final overrider of clone() through the hierarchy constructs the class itself",
+        "rule_of_three_consistent": "owners of raw storage user-declare copy ctor / copy assignment / destructor and leave no move "
+                                    "to the compiler; user-provided copies and moves mention every member and base",
+    }
     chk.extra["theorem_summary"] = {
         "model_refines_spec": "for every program the pointer model state represents the chain-specification state",
         "forest_inv": "parent link = owner, inner pointers owned and live, handles unique, no cycles, freed once, no fault",
